@@ -14,6 +14,31 @@ int64_t entry_key(int id) { uint64_t h = 1469598103934665603ull; for (const char
 int entry_from_key(int64_t k) { static std::unordered_map<int64_t, int> m; if (m.empty()) for (int i = 0; i < E_COUNT; ++i) m[entry_key(i)] = i; auto it = m.find(k); return it == m.end() ? -1 : it->second; }
 static const char* base_name(const char* f) { const char* b = f ? f : "?"; for (const char* p = b; *p; ++p) if (*p == '/') b = p + 1; return b; }
 
+enum Tok { T_X, T_SH, T_DEG, T_T8, T_T16, T_N, T_F32, T_F64, T_INT };
+struct ETok { int n; Tok t[3]; int ti[3]; };
+static const ETok& entry_toks(int id)
+{
+  static std::vector<ETok> v;
+  if (v.empty()) { for (int i = 0; i < E_COUNT; ++i) { ETok e; e.n = 0; for (const std::string& s : entry_args()[i]) { if (e.n >= 3) break; Tok t = s == "x" ? T_X : s == "sh" ? T_SH : s == "deg" ? T_DEG : s == "t8" ? T_T8 : s == "t16" ? T_T16 : s == "n" ? T_N : s == "f32" ? T_F32 : s == "f64" ? T_F64 : T_INT; e.t[e.n] = t; e.ti[e.n] = t == T_INT ? itype_index(s.c_str()) : -1; ++e.n; } v.push_back(e); } }
+  return v[id];
+}
+static bool tok_arg_ok(Tok t, int64_t v)
+{
+  switch (t) { case T_X: return v != INT64_MIN; case T_SH: return v >= INT32_MIN && v <= 63; case T_DEG: return v >= INT32_MIN && v <= INT32_MAX; case T_T8: return v >= 0 && v <= 255; case T_T16: return v >= 0 && v <= 360; case T_N: return v >= 0 && v <= 64; case T_F32: return v >= 0 && v <= 0xffffffffll; default: return true; }
+}
+static bool tok_nontrivial(Tok t, int ti, int64_t v)
+{
+  switch (t) {
+    case T_X: return m_isnan(v) || iabs128(v) >= ((i128)1 << 46);
+    case T_SH: return v < 0 || v >= 48;
+    case T_DEG: return v < 0 || v > 360;
+    case T_F32: { float f = bits_f32((uint32_t)v); return !(std::fabs(f) < 2147483647.0f); }
+    case T_F64: { double f = bits_f64((uint64_t)v); return !(std::fabs(f) < 2147483647.0); }
+    case T_T8: case T_T16: case T_N: return true;
+    case T_INT: { i128 n = tval(ITYPES[ti], v); return n == 0 || n == -1 || n == 1 || iabs128(n) >= ((i128)1 << 31); }
+  }
+  return false;
+}
 // is `v` an admissible value for an argument of type token `tok` (C07 domain: any finite or NaN
 // fixed_t, any value of an integral or floating type, shift counts in [INT_MIN, 63])
 static bool c07_arg_ok(const std::string& tok, int64_t v)
@@ -42,10 +67,10 @@ static void c07_check(Ctx& ctx, const Args& a)
 {
   if (a.size() != 4) { ctx.skip(); return; }
   int id = entry_from_key(a[0]); if (id < 0) { ctx.skip(); return; }
-  const auto& sig = entry_args()[id];
-  for (size_t i = 0; i < sig.size(); ++i) if (!c07_arg_ok(sig[i], a[1 + i])) { ctx.skip(); return; }
-  for (size_t i = sig.size(); i < 3; ++i) if (a[1 + i] != 0) { ctx.skip(); return; }
-  bool nt = false; for (size_t i = 0; i < sig.size(); ++i) nt = nt || c07_nontrivial(sig[i], a[1 + i]);
+  const ETok& sig = entry_toks(id);
+  for (int i = 0; i < sig.n; ++i) if (!tok_arg_ok(sig.t[i], a[1 + i])) { ctx.skip(); return; }
+  for (int i = sig.n; i < 3; ++i) if (a[1 + i] != 0) { ctx.skip(); return; }
+  bool nt = false; for (int i = 0; i < sig.n; ++i) nt = nt || tok_nontrivial(sig.t[i], sig.ti[i], a[1 + i]);
   if (nt) ctx.nontriv();
   ctx.cls(g_sigs[id].name);
   for (size_t ci = 0; ci < ctx.cuts.size(); ++ci) {
